@@ -51,7 +51,7 @@ CloseFrames(c) ==
   {CloseFr(c, code, 0) : code \in AcceptCodes \cup RejectCodes \cup UnspecCodes}
   \cup {CloseFr(c, 1000, 5), CloseFr(c, 1000, 123), CloseFr(c, 3000, 123)}
   \cup {[CloseFr(c, code, n) EXCEPT !.rs = "bad"] : code \in {1000, 1001}, n \in {1, 7}}
-  \cup {[CloseFr(c, 1000, n) EXCEPT !.rs = r] : r \in BadReasons \ {"bad"}, n \in {4, 12}}
+  \cup {[CloseFr(c, 1000, n) EXCEPT !.rs = r] : r \in BadReasons \ {"bad"}, n \in {4, 12, 123}}
   \cup {[CloseFr(c, 1001, n) EXCEPT !.rs = r] : r \in GoodReasons \ {"ok"}, n \in {4, 40}}
   \cup {Fr(c, OpClose, TRUE, 0), Fr(c, OpClose, TRUE, 1)}
 
@@ -67,6 +67,7 @@ MCCuts(st) == {NoCut}
 MCProgs(st) ==
   { << Op("RM"), Op("RM"), Op("RM"), Op("RM") >>,
     << Swd(-1), Op("RM"), Op("RM"), Op("RM"), Op("RM") >>,
+    << Op("WCP"), Op("RM"), Op("RM"), Op("RM"), Op("RM") >>,
     << Op("NR"), Rd(1), Rd(4096), Rd(4096), Op("NR"), Op("NR") >>,
     << Op("NR"), Op("NR"), Op("NR") >> }
 =============================================================================
